@@ -119,8 +119,16 @@ class Engine:
         self._fv_cache = {}
         self.begin_path()
 
+    def _abort(self, exc):
+        """Raise a path-steering exception and remember it: NumPy's C code may swallow
+        an exception raised inside __index__ / __bool__ and raise its own instead; the
+        explorer then still learns that the path was aborted."""
+        self.pending = exc
+        raise exc
+
     # ---- per-path state ---------------------------------------------------------
     def begin_path(self):
+        self.pending = None
         self.pos = 0
         self.memo = {}
         self.aux = {}
@@ -135,9 +143,11 @@ class Engine:
         return z3.Real(name) if sort == "real" else z3.Int(name)
 
     # ---- solver access ----------------------------------------------------------
-    def _relevant(self, term):
+    def _relevant(self, term, about=None):
         """Constraints of base+pc sharing variables (transitively) with term."""
         need = set(free_vars(term, self._fv_cache))
+        if about is not None:
+            need |= free_vars(about, self._fv_cache)
         pool = [(c, free_vars(c, self._fv_cache)) for c in self.base + self.pc[: self.synced]]
         rel = []
         changed = True
@@ -154,13 +164,14 @@ class Engine:
             pool = rest
         return rel
 
-    def check(self, term):
-        """Satisfiability of (path condition AND term): z3.sat / unsat / unknown."""
+    def check(self, term, about=None):
+        """Satisfiability of (path condition AND term): z3.sat / unsat / unknown.
+        `about`: a term whose variables must also be covered by the slice."""
         t0 = time.time()
         if self.sliced:
             s = z3.Solver()
             s.set("timeout", self.timeout_ms)
-            s.add(*self._relevant(term))
+            s.add(*self._relevant(term, about))
             s.add(term)
             r = s.check()
             self._last = s
@@ -213,7 +224,7 @@ class Engine:
             if self.sliced:
                 m = self.path_model()
                 if m is None:
-                    raise Unknown("no model for path condition")
+                    self._abort(Unknown("no model for path condition"))
                 self.model = m
             else:
                 t0 = time.time()
@@ -221,12 +232,12 @@ class Engine:
                 self.solver_s += time.time() - t0
                 self.nchecks += 1
                 if r != z3.sat:
-                    raise Unknown(f"no model for path condition: {r}")
+                    self._abort(Unknown(f"no model for path condition: {r}"))
                 self.model = self.solver.model()
         return self.model
 
     # ---- decisions --------------------------------------------------------------
-    def choose(self, options):
+    def choose(self, options, known_feasible=False):
         """options: list of (value, z3 condition).  Explores exactly the feasible ones
         and returns the value chosen on this path.  Conditions need not be exclusive."""
         conds = [c if isinstance(c, z3.ExprRef) else z3.BoolVal(bool(c)) for _, c in options]
@@ -244,21 +255,21 @@ class Engine:
             self.memo[key] = (d, conds)   # conds kept alive: ids of dead terms are reused
             return options[d][0]
         if self.frontier_depth is not None and i >= self.frontier_depth:
-            raise Frontier()
+            self._abort(Frontier())
         feas = []
         for k, cond in enumerate(conds):
             if z3.is_false(cond):
                 continue
-            if z3.is_true(cond) or self._says(cond) is True:
+            if known_feasible or z3.is_true(cond) or self._says(cond) is True:
                 feas.append(k)
                 continue
             r = self.check(cond)
             if r == z3.unknown:
-                raise Unknown("feasibility check returned unknown")
+                self._abort(Unknown("feasibility check returned unknown"))
             if r == z3.sat:
                 feas.append(k)
         if not feas:
-            raise Infeasible()
+            self._abort(Infeasible())
         k0 = feas[0]
         for k in feas:
             if self._says(conds[k]) is True:
@@ -303,14 +314,50 @@ class Engine:
         self.memo[key] = (0, [term])
 
     def concretize_int(self, term):
-        term = z3.simplify(term)
-        if z3.is_int_value(term):
-            return term.as_long()
-        for _ in range(self.max_int_values):
-            v = self.get_model().eval(term, model_completion=True).as_long()
-            if self.branch(term == v):
-                return v
-        raise Unknown("integer concretisation exceeded max_int_values")
+        """Case split over *all* feasible values of an integer term (one k-way choice
+        over the sorted value list, so that re-execution is deterministic)."""
+        st = z3.simplify(term)
+        if z3.is_int_value(st):
+            return st.as_long()
+        i = self.pos
+        if i < len(self.trace) and "values" in self.trace[i] and self.trace[i].get("tid") == term.get_id():
+            values = self.trace[i]["values"]
+        else:
+            values = self._enumerate_int(term)
+        opts = [(v, term == v) for v in values]
+        val = self.choose(opts, known_feasible=True)
+        if self.pos > i and i < len(self.trace) and "values" not in self.trace[i]:
+            # position i was consumed by this call (no memo hit).  For a replayed
+            # fixed-prefix entry this is the first replay: only the constraints
+            # before position i were committed, so the enumeration is the original
+            # one; later paths keep the whole prefix committed (which would shrink
+            # the list) and must reuse it.
+            self.trace[i]["values"] = values
+            self.trace[i]["tid"] = term.get_id()
+            self.trace[i]["term"] = term      # keeps the id alive
+        return val
+
+    def _enumerate_int(self, term):
+        key = ("enum", term.get_id(), self.synced)
+        hit = self.memo.get(key)
+        if hit is not None:
+            return hit[0]
+        found = []
+        while True:
+            blk = z3.And([term != v for v in found]) if found else z3.BoolVal(True)
+            r = self.check(blk, about=term)
+            if r == z3.unsat:
+                break
+            if r != z3.sat:
+                self._abort(Unknown("integer enumeration returned unknown"))
+            found.append(self.last_model().eval(term, model_completion=True).as_long())
+            if len(found) > self.max_int_values:
+                self._abort(Unknown("integer concretisation exceeded max_int_values"))
+        if not found:
+            self._abort(Infeasible())
+        found.sort()
+        self.memo[key] = (found, term)
+        return found
 
     # ---- obligations ------------------------------------------------------------
     def valid(self, prop):
@@ -358,7 +405,15 @@ def explore(fn, base=(), timeout_ms=20000, fixed_prefix=(), frontier_depth=None,
         while True:
             eng.begin_path()
             try:
-                results.append(fn(eng))
+                try:
+                    r = fn(eng)
+                except Exception:
+                    if eng.pending is None:
+                        raise
+                    raise eng.pending        # a swallowed path-steering exception
+                if eng.pending is not None:
+                    raise eng.pending
+                results.append(r)
                 st["complete"] += 1
             except Frontier:
                 st["frontier"] += 1
